@@ -172,6 +172,23 @@ class uamiv(ioapi_base):
 
         self.SDATE, self.STIME = self.variables['TFLAG'][0, 0, :]
         self.TSTEP = etflagv[0, 0, 1] - tflagv[0, 0, 1]
+        if etflagv[0, 0, 0] != tflagv[0, 0, 0]:
+            # the first step ends on another day: HHMMSS of the elapsed time
+            try:
+                from datetime import datetime, timedelta
+
+                def _abs(d, t):
+                    d, t = int(d), int(t)
+                    return datetime(d // 1000, 1, 1) + timedelta(
+                        days=d % 1000 - 1, hours=t // 10000,
+                        minutes=t % 10000 // 100, seconds=t % 100)
+                secs = int((_abs(*etflagv[0, 0, :]) -
+                            _abs(*tflagv[0, 0, :])).total_seconds())
+                self.TSTEP = self.TSTEP.dtype.type(
+                    secs // 3600 * 10000 + secs % 3600 // 60 * 100 +
+                    secs % 60)
+            except ValueError:
+                pass
         if P_ALP is not None:
             self.P_ALP = P_ALP
         if P_BET is not None:
